@@ -16,7 +16,7 @@ EXPLANATION = (
     "open; the keep list is exactly {in, out, err, error pipe ends, exit handle}. (X3) with the descriptor-table model over all "
     "68 handle layouts: at exec everything still open other than 0, 1, 2 has close-on-exec set, except the exit handle, whose flag "
     "is cleared. Descriptors opened concurrently by other threads are covered by X2 (they are closed in the child whatever their "
-    "flags). Not decided: nothing about the kernel beyond the stated call semantics.")
+    "flags). Not decided: nothing about the kernel beyond the stated call semantics. The keep-list test is evaluated on a concrete list (X2m: yes for members, no for any other number); a build configuration in which no loop of the forking code closes anything (the close compiled out with ASSERT) is a violation.")
 ASSUMPTIONS = [
     "clang 14 parser/CFG and the fact extractor are correct",
     "descriptor numbers are < RLIMIT_NOFILE (soft limit); close-on-exec descriptors are closed by exec; after fork the child is single threaded",
